@@ -135,7 +135,8 @@ WORDS = ["alpha", "beta", "gamma", "delta", "epsilon", "Zeta", "eta", "Theta", "
 SAFE_START = ["alpha", "beta", "gamma", "Theta", "node", "graph", "query", "The", "shard", "omega", "naïve", "Ωmega"]
 TITLE_WORDS = ["Intro", "Setup", "Usage", "Details", "Advanced", "Notes", "Reference", "Overview", "Part", "Guide", "naïve"]
 STYLE_CHARS = "=-~^\"'#*+:._`"
-LITERALS = ["x", "a*b", "f(x)", "a_b", "|pipe|", "<tag>", "a\\b", "two words", "k: v", "__init__", "*star*", "50%"]
+LITERALS = ["x", "a*b", "f(x)", "a_b", "|pipe|", "<tag>", "a\\b", "two words", "k: v", "__init__", "*star*", "50%",
+            "C:\\", "\\", "dir\\sub\\", "\\n", "a`b", "x\\ y", "**", "`"]
 ESCAPES = ["*", "`", "_", "\\", "|"]
 CODE_LINES = ["x = 1", "def f(a, *b):", "    return a", "", "  y = `z`", "print('**not bold**')", ":field: v", ".. not a comment",
               "- dash", "1. one", "a\\b", "    deep::", "\tTab", "| bar", "=====", "日本語 = 'ü'", "", "z"]
